@@ -33,10 +33,24 @@ BLIND.update({
  "C15-k": ("missed", "added C15.pal.contains-only-by-did-equality"),
  "C18-k": ("missed", "added C18.deactivated.one-definition (SIBLING: store and resolver predicates test the same members)"),
 })
+BLIND.update({
+ "C03-m": ("missed", "added C03.memory-signer.signs-only-for-its-own-kid.jwt/.jws"),
+ "C06-m": ("missed", "added C06.parse.every-prev-entry-is-kept (EACH-ITERATION)"),
+ "C08-m": ("missed", "added C08.tree.load-forgets-tracked-updates"),
+ "C10-m": ("missed", "added C10.add.every-delivery-is-applied"),
+ "C11-m": ("missed", "added C11.status.index-bound-is-the-lists-own"),
+ "C12-m": ("missed", "added C12.rules.one-slot-per-nested-requirement"),
+ "C13-m": ("missed", "added C13.pending.age-does-not-unlock"),
+ "C15-m": ("missed", "added C15.tls-offload.exactly-one-certificate-header"),
+ "C16-m": ("missed", "added C16.server.get-returns-the-log-unfiltered"),
+ "C18-m": ("missed", "added C18.pure.no-state-between-resolves.* (no package-level state in the did:jwk / did:key resolvers)"),
+ "C07-m": ("incidental", "reported by C06.add.recheck-present only (repeats C06-a); added C07.safety.duplicate-delivery-is-not-summarised-twice"),
+ "C17-m": ("incidental", "reported by C06.step.kid-xor-jwk.both only; the obligation is now also C17.dag.kid-xor-jwk"),
+})
 n=0
 SRC=sys.argv[1] if len(sys.argv)>1 else '/tmp/seeds6'
-RND='round 7' if 'seeds7' in SRC else 'round 6'
-for src in sorted(glob.glob(SRC+'/C??-[ijk]')):
+RND='round 8' if 'seeds8' in SRC else ('round 7' if 'seeds7' in SRC else 'round 6')
+for src in sorted(glob.glob(SRC+'/C??-[ijkm]')):
     sid=os.path.basename(src)
     if not os.path.exists(src+'/patch.diff') or not os.path.exists(src+'/verify.txt'):
         print('skip',sid); continue
@@ -58,7 +72,7 @@ for src in sorted(glob.glob(SRC+'/C??-[ijk]')):
     meta={"id":sid,"property":sid.split('-')[0],"what_changed":line('what'),"needs_to_manifest":line('needs'),"clause":line('clause'),
           "demo_files":[os.path.basename(d) for d in demos],"demo_goes_in":dest,
           "verified":{"how":"verify_seed.sh in a scratch git worktree of /repo HEAD (removed afterwards): git apply; go build ./...; existing tests of touched packages; demo with patch (must fail); demo without patch (must pass)","log":ver.strip().splitlines()},
-          "source":("independent sub-agent given the property text, its own scratch worktree and the one-line descriptions of all earlier seeded changes of that property (to go elsewhere) (round 7)" if RND=="round 7" else "independent sub-agent given only the property text and its own scratch worktree (round 6)")}
+          "source":("independent sub-agent given the property text, its own scratch worktree and the one-line descriptions of all earlier seeded changes of that property (to go elsewhere) ("+RND+")" if RND!="round 6" else "independent sub-agent given only the property text and its own scratch worktree (round 6)")}
     old={}
     if os.path.exists(dst+'/meta.json'): old=json.load(open(dst+'/meta.json'))
     for k in ('detected_by',):
